@@ -2,14 +2,14 @@
     regenerated from the source.  Executable (extracted); no proofs in this file. *)
 From Coq Require Import NArith List Bool.
 From ADF Require Import Base.Maps Spec.Spec Bdd.Store Adf.Iter Adf.Native Adf.NoGood Adf.Search Front.Parser
-     Server.Model Gen.GenFilters.
+     Server.Model Server.Graph Gen.GenFilters.
 Import ListNotations.
 Local Open Scope N_scope.
 
 (** SimplifiedAdf: ordering (names), node list, roots *)
 Definition adfdata := (list str * list node * list N)%type.
-(** Vec<AcAndGraph>: the interpretations as handle vectors (graphs are derived from them, see Server/Graph.v) *)
-Definition answers := list (list N).
+(** Vec<AcAndGraph>: the interpretations as handle vectors, each with its graph *)
+Definition answers := list (list N * dgraph).
 
 Definition cfgS : cfg := cfg_default.
 
@@ -20,7 +20,7 @@ Definition lib_parse (code : str) (pg : parsing) : outcome (adfdata * answers) :
   | None => Panicked               (* an ac fact or atom names an undeclared statement: formula_order / term panic *)
   | Some fs =>
     match from_parser cfgS (length (names ps)) fs with
-    | Some (st, ac) => Done ((names ps, table_of st, ac), [ac])
+    | Some (st, ac) => Done ((names ps, table_of st, ac), [(ac, from_adf_and_ac (table_of st) ac)])
     | None => Panicked
     end
   end.
@@ -30,14 +30,15 @@ Definition lib_solve (a : adfdata) (s : strategy) : outcome answers :=
   let st := from_nodes cfgS tab in          (* Adf::from(SimplifiedAdf): Bdd::from(nodes) replays through node() *)
   let r :=
     match s with
-    | SGround => match grounded cfgS st ac with Some (_, g) => Some [g] | None => None end
-    | SComplete => match Native.complete cfgS st ac with Some (_, l) => Some l | None => None end
-    | SStable => match stable cfgS st ac with Some (_, l) => Some l | None => None end
-    | SStableCountingA => match stable_count_cur cfgS heu_a ac st with Some (_, l) => Some l | None => None end
-    | SStableCountingB => match stable_count_cur cfgS heu_b ac st with Some (_, l) => Some l | None => None end
-    | SStableNogood => match nogood_search_cur cfgS ac HSimple false 300000 st [] with Some (_, l, _) => Some l | None => None end
+    | SGround => match grounded cfgS st ac with Some (s', g) => Some (s', [g]) | None => None end
+    | SComplete => Native.complete cfgS st ac
+    | SStable => stable cfgS st ac
+    | SStableCountingA => stable_count_cur cfgS heu_a ac st
+    | SStableCountingB => stable_count_cur cfgS heu_b ac st
+    | SStableNogood => match nogood_search_cur cfgS ac HSimple false 300000 st [] with Some (s', l, _) => Some (s', l) | None => None end
     end in
-  match r with Some l => Done l | None => Panicked end.
+  (* the graphs are drawn from the diagram as it is AFTER the computation *)
+  match r with Some (s', l) => Done (map (fun v => (v, from_adf_and_ac (table_of s') v)) l) | None => Panicked end.
 
 Definition digest (p : str) : str := 36 :: p.
 
